@@ -145,9 +145,13 @@ def rdac_build(rng, d):
             body[22] = rng.randrange(0, 3)         # repeater mode, octet 26
             return head + bytes(body)
         return head + gen.rbytes(rng, rng.randrange(0, 6))
-    # other: a prefix no step expects
+    # other: a prefix no step expects - including the empty datagram and fragments (prefixes / inner parts) of the responses
+    # the steps do expect, which are not those responses
     k = rng.random()
-    if k < 0.5:
+    if k < 0.3:
+        full = bytes([0x7E, 0x04, 0x00, rng.choice(list(PREFIX.values()))])
+        return rng.choice([b"", full[:2], full[:3], full[1:3], full[1:4], full[2:4]])
+    if k < 0.6:
         return bytes([0x7E, 0x04, 0x00, rng.choice([0x55, 0x01, 0xFB, 0xFE])]) + gen.rbytes(rng, rng.randrange(0, 30))
     data = bytearray(gen.rbytes(rng, rng.randrange(2, 40)))
     if data[:3] == b"\x7e\x04\x00":
